@@ -65,6 +65,32 @@ CLAIMS = {
              "coordinates'; equality of parallel and serial numerical results is not decided.",
         technique="index-space/window type inference over the AST + layout typestate over the driver's call sequence",
         design="5/C05, 4.2"),
+    "C07": dict(
+        text="For each of the 10 evaluators (both families) and every derivative-flag combination (32 cases) the returned value is "
+             "extracted by symbolic forward substitution and equals the contraction of the coefficient window [span-degree, span] with "
+             "the value/derivative basis routine applied to knots, degree, point and span (cell size) of the same dimension; the "
+             "uniform cubic basis equals the cardinal cubic B-spline pieces, sums to 1, has non-negative Bernstein coefficients, its "
+             "derivative routine is d/dx of it and sums to 0; uniform span search incl. the right end point; fast/general dispatch "
+             "agreement (matched pairs, identical arguments, agreeing signatures, 6 sites + collocation matrix); periodic wrap of unit "
+             "coefficient vectors; evaluators never write into the coefficient array. The Cox-de Boor recursion and the binary span "
+             "search (data-dependent loops) and 'one ulp inside' behaviour are not decided.",
+        technique="symbolic forward substitution with sum normal forms + polynomial identities (sympy) + dispatch/signature agreement + alias lint",
+        design="5/C07"),
+    "C08": dict(
+        text="Narrow structural claim: collocation matrix built from one basis; factorisation and solve selected as a pair by dtype "
+             "equality and fed with each other's factors; periodic solves followed by the coefficient wrap; in 2-D each sweep uses the "
+             "tools of its own dimension and both wraps cover the full extent of the other dimension, in the right order. The defining "
+             "identity S(x_i)=u_i, polynomial reproduction and conditioning are numerical and are not decided.",
+        technique="structural pairing/ordering rules over the AST (canonicalised statement matching)",
+        design="5/C08"),
+    "C09": dict(
+        text="Narrow mechanism claim: weights = transposed solve, with the interpolation factorisation, of the stored basis integrals "
+             "(periodic: integrals of the wrapped copies folded onto the first p entries of a copy); stored integrals are never "
+             "mutated; uniform-cubic interior integrals are dx and the auxiliary construction of the boundary integrals is translation "
+             "invariant (symbolic). Correctness of _build_integrals for non-uniform periodic spaces and 1-2 cell uniform cubic spaces "
+             "(the defects quoted in the property) is numerical and is NOT claimed.",
+        technique="structural rules + alias/mutation lint + symbolic translation-invariance check (sympy)",
+        design="5/C09"),
     "C10": dict(
         text="Element-wise model of FluxSurfaceAdvection._getLagrangePts compared with the stated geometry (b_z, theta shift per "
              "cell, foot displacement -v b_z dt, stencil cells centred on the foot, theta shifts, node distances, first "
@@ -125,6 +151,39 @@ CLAIMS = {
              "basis' stored integrals. Exactness on the spline space (C09's numerical part) is not decided.",
         technique="symbolic forward substitution (sum normal form) + index-space typing + alias/mutation lint",
         design="5/C16"),
+    "C17": dict(
+        text="Engine C on the four diagnostic constructors (local weights are the [start:end) windows of the global trapezoid weights "
+             "on the axes carrying r and v; the C-order fill of the (r,v) outer product distinguishes the two axis orders); trapezoid "
+             "weights, r Jacobian, dq dz (and v^2/2) and the four integrands as normal forms agreeing across the sibling classes; "
+             "rows/ops/arrays/column order of DiagnosticCollector with sqrt only after reduction; neutral elements, ownership latch and "
+             "global-to-local index conversion of Grid.getMin/getMax. The slot<->step relation and analytic volume factors are not decided.",
+        technique="index-space/window typing + formula normal forms (sympy) + producer/consumer table agreement",
+        design="5/C17"),
+    "C18": dict(
+        text="Writer/reader agreement of the checkpoint format (dataset path, Layout attribute, hyperslab by the layout's starts/ends on "
+             "write and on both read paths, layout guard), the file-name family (fixed-width time: format, glob, parser, lexicographic max "
+             "= latest, 'latest' only when no time is requested), constants round trip (property setters commute - 2 known findings -, "
+             "defaults applied after the file, dependency-ordered deferral), zero-divisor dataflow and restart book-keeping of the driver. "
+             "Bit-exact HDF5 round trip and equality of split and unsplit runs are not decided; collective matching of the HDF5 calls "
+             "is C06.",
+        technique="producer/consumer agreement rules + setter write-set commutation + abstract reaching-definition lint (zero divisor)",
+        design="5/C18"),
+    "C19": dict(
+        text="Compile-fail witness: the repository's own compiler front end (pyccel -t; thorough: the documented make for Fortran and "
+             "C) accepts the five kernels of the working tree on a scratch copy; every library call site of a kernel fits its signature; "
+             "numba/pythran copies define the consumer-imported names (1 known finding) with identical parameter lists and export "
+             "arities; each variant body is AST-identical to the reference after normalisation or is proved against the same "
+             "specification formula as the reference (engine F, helpers inlined); no kernel index relies on negative wrap-around. "
+             "Numerical equality of compiled and interpreted results is inherently dynamic and is not decided.",
+        technique="compiler front end as type checker + normalised-AST/variant equivalence + symbolic specification conformance + index lint",
+        design="5/C19"),
+    "C20": dict(
+        text="Narrow structural claim: per process-grid direction the dimensions under the bounding min() equal the dimensions the "
+             "standard layouts distribute along it; set-up call sites; the failure test after the divisor search is the negated loop "
+             "bound; the second extent is the exact quotient by a divisor; candidates are accepted only within both bounds. "
+             "Termination, optimality and exactness of the error condition over the whole input space are not decided.",
+        technique="producer/consumer set agreement + loop-exit guard rule over the AST",
+        design="5/C20"),
     "C06": dict(
         text="Static SPMD collective matching: every collective call site (35 today) and every call chain to it is "
              "shown to be control dependent only on rank-uniform conditions, or to lie in a region whose alternatives "
